@@ -5,7 +5,9 @@
 // while the database wrapper (internal/sched) numbers the reads of its View and, before chosen
 // reads, lets the REAL handler goroutine commit pending blocks (connects or a reorg) announced
 // through OnBlockConnected. Output = the history lines of internal/hist plus
-//   V <wid> <kind> <minconf> <nsh> <sh>.. | <npend> <bid>.. | <nreads> <idx>.. | <answer>
+//
+//	V <wid> <kind> <minconf> <nsh> <sh>.. | <npend> <bid>.. | <nreads> <idx>.. | <answer>
+//
 // (idx_k = number of commits made before the k-th read of the query; answer = "B total spend
 // wstaking wbinding" or "C n tx:vout:amount:height:sh:maturity:confs ..", "E" for an error).
 // ocaml/C17/driver.ml replays the lines on the extracted model (coq/Sched/Reads.v over Ledger).
@@ -60,10 +62,10 @@ func scheduledQuery(h *hist.H, ctl *sched.Ctl, wi *hist.WInfo, kind string, minc
 	}
 	var mu sync.Mutex
 	viewTx := 0
-	mk := 0          // next model read number
-	syncReads := 0   // reads of the sync bucket seen
-	done := 0        // pending blocks committed so far
-	var idxs []int   // commit index serving each model read
+	mk := 0        // next model read number
+	syncReads := 0 // reads of the sync bucket seen
+	done := 0      // pending blocks committed so far
+	var idxs []int // commit index serving each model read
 	var results []bool
 	var injErr error
 	ctl.SetOnRead(func(ev sched.Event, key []byte) {
@@ -396,7 +398,9 @@ func raceRun(seed uint64, dur time.Duration) {
 				}
 				wi := wis[rr.Intn(2)] // the third wallet is the one being removed
 				h.W.WM.UseWallet(wi.ID)
-				switch rr.Intn(6) {
+				switch rr.Intn(7) {
+				case 6:
+					h.W.WM.GetAllAddressesWithPubkey()
 				case 0:
 					h.W.WM.WalletBalance(1, true)
 				case 1:
